@@ -3,7 +3,7 @@
 #   tools/seedtest.sh <dir-with-patch.diff | patch file> <check id>...
 # prints one line per check: <id> rc=<n> <VIOLATION line if any>
 set -u
-src=$1; shift
+src=$(readlink -f "$1"); shift
 [ -d "$src" ] && src=$src/patch.diff
 work=$(mktemp -d /tmp/seedrun.XXXXXX)
 trap 'rm -rf "$work"' EXIT
